@@ -390,6 +390,8 @@ class Subgraph:
         v = open(output_basename + "_ethos_u_subgraph_values.txt", "w")
         for idx, op in enumerate(all_ops):
             for input in op.inputs:
+                if input is None:
+                    continue
                 self.write_tensor_value_to_file(v,input.values)
             if op.run_on_npu:
                 writer.writerow([op.name,op.type,op.inputs,op.outputs,op.attrs])
